@@ -319,6 +319,11 @@ func checkC15(w *World, st core.Status, r *RunResult) []Violation {
 				}
 				if errors.Is(op.Err, io.EOF) {
 					sendEOF = true
+					if started {
+						// the stream-closed error is for a Send that the instant
+						// interrupted; one that begins afterwards says why
+						add("send-eof-after-instant", fmt.Sprintf("Send started after the %v instant returned %v, want code %v", want, op.Err, want))
+					}
 					continue
 				}
 				if inflight && strings.Contains(op.Err.Error(), "cannot be marshalled") {
